@@ -112,7 +112,7 @@ CHECKS["C11"] = dict(
     text="Decides the hand-written conversion glue of Fq/Fr/Fp in both backends (108 obligations): chunk width = N_8, zero padding on the high side, Horner from the most significant chunk with the "
          "constant 2^(8 N_8) mod p (by value), big-endian = reverse then LE, checked parse = reduce/re-serialise/compare, from_bigint rejects iff >= p, stream forms read LE limbs and apply the "
          "same check, Ord compares canonical limbs most-significant first, Hash writes canonical bytes, From<u128> packs limbs, the wrappers split/recombine u32/u64 limbs correctly.",
-    note=OTHER_NOTE + " ASSUMED (arithmetic, not shape): from_raw_bytes (arkworks from_le_bytes_mod_order / fiat from_bytes+to_montgomery on unreduced input) reduces modulo p. Display/FromStr have no rule.",
+    note=OTHER_NOTE + " ASSUMED (arithmetic, not shape): from_raw_bytes (arkworks from_le_bytes_mod_order / fiat from_bytes+to_montgomery on unreduced input) reduces modulo p. Display/FromStr are checked for their decimal-Horner / canonical-integer shape only.",
     design="DESIGN.md §4 C11")
 CHECKS["C12"] = dict(
     technique="static sibling cross-check of the two feature configurations: canonical-form equality of decode/encode/Elligator under one normaliser, FWD denotations of every shared operator form, identical glue-level terms of the shared field source against both wrappers, constants by canonical value, public-signature parity",
